@@ -1864,8 +1864,10 @@ def gen_huge_store_cases(prop, lang, rnd, titles, ncases):
             c.search(sid, shared, perms=[o1, list(reversed(range(n)))])
             c.search(sid, shared[:2], perms=[o1])
         else:
-            c.search(sid, shared, want=["qtok", "unlimited"])
-            c.search(sid, shared[:1], want=["qtok", "unlimited"])
+            # too many records to ask each one alone: a sample (both ends, the middle, a dozen drawn) is asked, and must agree
+            some = sorted(set([0, 1, n // 2, n - 2, n - 1] + rnd.sample(range(n), 12)))
+            c.search(sid, shared, want=["qtok", "unlimited", "singles_some"], single_of=some)
+            c.search(sid, shared[:1], want=["qtok", "unlimited", "singles_some"], single_of=some)
         cases.append(c)
     return cases
 
